@@ -90,6 +90,8 @@ type VerifC10UDP struct {
 	r       *udpBatchReader
 	wburst  udpTXBurst
 	pending []*udpJob
+	txPlan    []int
+	txWrapped bool
 	// ReaderFlushed counts the replies the reader's own burst has sent.
 	ReaderFlushed int
 	// OnTake runs on every slab right after take(), before the read.
@@ -149,6 +151,47 @@ func VerifC10NewUDPBind(script VerifC10Script, srv *Server, inline bool, queue i
 	}
 	u.wburst.slot = 0
 	return u, nil
+}
+
+// SetTXPlan scripts what the kernel does with the next sendmmsg calls of this
+// engine's senders — all of it behaviour sendmmsg is allowed to show: an item
+// n > 0 sends at most n of the armed messages (a partial send), 0 refuses the
+// call with EPERM (the engine falls back to direct sends for the unsent rest),
+// -1 answers ENOSYS (the engine retires batched TX). With the plan used up the
+// real syscall result stands. The engine's own retry / fallback loop
+// (udpEngine.sendGroup) runs unchanged; only the syscall's answer is scripted.
+func (u *VerifC10UDP) SetTXPlan(plan []int) {
+	u.txPlan = append([]int(nil), plan...)
+	if u.txWrapped {
+		return
+	}
+	u.txWrapped = true
+	for i := range u.e.txSenders {
+		s := &u.e.txSenders[i]
+		orig := s.writeFn
+		s.writeFn = func(fd uintptr) bool {
+			if len(u.txPlan) == 0 {
+				return orig(fd)
+			}
+			p := u.txPlan[0]
+			u.txPlan = u.txPlan[1:]
+			switch {
+			case p == 0:
+				s.sent, s.werr = 0, unix.EPERM
+				return true
+			case p < 0:
+				s.sent, s.werr = 0, unix.ENOSYS
+				return true
+			}
+			saved := s.count
+			if s.start+p < s.count {
+				s.count = s.start + p
+			}
+			r := orig(fd)
+			s.count = saved
+			return r
+		}
+	}
 }
 
 func (u *VerifC10UDP) Addr() *net.UDPAddr {
